@@ -41,9 +41,21 @@ def sh(cmd, cwd=None, env=None, timeout=None, input=None):
     e.update({"CARGO_NET_OFFLINE": "true"})
     if env:
         e.update(env)
-    p = subprocess.run(cmd, cwd=cwd, env=e, timeout=timeout, input=input,
-                       stdout=subprocess.PIPE, stderr=subprocess.PIPE, text=True, errors="replace")
-    return p.returncode, p.stdout, p.stderr
+    # own process group: on a timeout the whole pipeline (sh -c "harness | awk", worker processes) is killed,
+    # not just its first process (an orphaned harness would keep leaking threads)
+    p = subprocess.Popen(cmd, cwd=cwd, env=e, stdin=subprocess.PIPE if input is not None else None,
+                         stdout=subprocess.PIPE, stderr=subprocess.PIPE, text=True, errors="replace",
+                         start_new_session=True)
+    try:
+        out, err = p.communicate(input=input, timeout=timeout)
+    except subprocess.TimeoutExpired:
+        try:
+            os.killpg(p.pid, 9)
+        except OSError:
+            pass
+        p.communicate()
+        raise
+    return p.returncode, out, err
 
 
 def strip_lean_comments(src):
